@@ -175,6 +175,7 @@ class Runner(object):
             try:
                 key = render_key(rk, ck, self.C, list(objs[j]['meta']), False, variant=(j + len(hist)) % 2)
                 key_before = repr(key)
+                x_prev = x
                 x = x[key]
                 # the key object belongs to the caller, who may use it again on a sample laid out differently
                 key_changed = key_changed or repr(key) != key_before
@@ -190,6 +191,19 @@ class Runner(object):
             d = None                       # other forms may be refused
         if d is None and key_changed:
             d = 'caller-key-object-changed'
+        if d is None and obs['k'] != 'raises' and hist[-1][1]['t'] in ('list', 'tuple') and hist[-1][1]['xs']:
+            # the same column list handed over as a ONE-SHOT iterable (iterator / generator, as reversed(...), map(...),
+            # a generator expression give): another form of key - refused, or values and metadata as for the list
+            rkey, ckey = key
+            for mk in ((lambda: iter(list(ckey))), (lambda: (c for c in list(ckey)))):
+                try:
+                    o1 = samples.project(x_prev[rkey, mk()])
+                except Exception:  # noqa
+                    continue
+                d1 = compare_read(final, o1, True)
+                if d1 is not None:
+                    d, obs = 'one-shot-iterable/' + d1, o1
+                    break
         label = '%s-%s' % (hist[-1][0]['t'], hist[-1][1]['t'])
         if not self.neg_done and final['k'] == 'mat' and len(final['meta']) >= 2 and obs['k'] == 'mat':
             bad = dict(final)
